@@ -12,7 +12,17 @@ func init() {
 			}
 			// random subset programs with one out-of-subset construct injected at a random position
 			if ctx.TierN() == 0 {
-				return tvRandom(ctx, gen.RandomLookalikes(1, 150, 3))
+				if err := tvRandom(ctx, gen.RandomLookalikes(1, 150, 3)); err != nil {
+					return err
+				}
+				// random programs with unrestricted control flow (returns, break/continue and else-if chains
+				// anywhere, shadowing, assignment to := variables and parameters)
+				return tvRandom(ctx, gen.RandomLiberal(1, 200, 3))
+			}
+			for seed := int64(1); seed <= 3; seed++ {
+				if err := tvRandom(ctx, gen.RandomLiberal(seed, 500, 3)); err != nil {
+					return err
+				}
 			}
 			for seed := int64(1); seed <= 3; seed++ {
 				if err := tvRandom(ctx, gen.RandomLookalikes(seed, 500, 3)); err != nil {
@@ -21,7 +31,7 @@ func init() {
 			}
 			return nil
 		},
-		Bounds: "programs: the look-alike catalogue (gen.Lookalikes: unsupported assignment operators, operators, slice forms, literals, statement kinds, control-flow shapes, integer types, interface uses, builtins with extra arguments, user functions named like builtins), one construct per host function, plus random subset programs (gen.RandomLookalikes, fixed seeds: 150 in quick, 3 × 500 in thorough) with one of 47 out-of-subset constructs injected at a random statement position (unsupported op-assign and operators, switch, defer, goto, labels, return inside loops, multi-declarations, swaps, signed/16-bit/float conversions, 3-index slices, if-init, positional literals, arrays, string indexing/ranging/slicing, min/max, channels, closures called in place, assignment to parameters and := variables, …); per declaration: rejected with a conversion error, or emitted and then equivalent to Go on all inputs within the C01 input bounds",
+		Bounds: "programs: the look-alike catalogue (gen.Lookalikes: unsupported assignment operators, operators, slice forms, literals, statement kinds, control-flow shapes, integer types, interface uses, builtins with extra arguments, user functions named like builtins), one construct per host function, plus random subset programs (gen.RandomLookalikes, fixed seeds: 150 in quick, 3 × 500 in thorough) with one of 47 out-of-subset constructs injected at a random statement position (unsupported op-assign and operators, switch, defer, goto, labels, return inside loops, multi-declarations, swaps, signed/16-bit/float conversions, 3-index slices, if-init, positional literals, arrays, string indexing/ranging/slicing, min/max, channels, closures called in place, assignment to parameters and := variables, …); and random programs with unrestricted control flow (gen.RandomLiberal, 200 in quick, 3 × 500 in thorough: returns, break/continue and else-if chains at arbitrary positions, shadowing, assignment to := variables and parameters); per declaration: rejected with a conversion error, or emitted and then equivalent to Go on all inputs within the C01 input bounds",
 		Assumptions: []string{
 			"as C01; a goose crash (exit status other than 0/1) satisfies neither alternative",
 			"user packages that merely share their name with an FFI package are not covered: the emitted text is identical either way, the difference is only in how Coq resolves the qualified name",
